@@ -217,7 +217,7 @@ fn mk(name: &str, prefill: usize, bodies: Vec<Body<S>>) -> Scenario<S> {
 // ---- S4: payload with a destructor. Plain data only (no pointers), so that a destructor run on memory that never
 // held a pushed value (all zeroes, or stale) is counted instead of crashing the harness.
 const D_MAGIC: u64 = 0xD0D0_5EED_D0D0_5EED;
-const D_MAX: usize = 8 + 64;
+const D_MAX: usize = 8 + 80;
 static D_DROPS: [AtomicUsize; D_MAX] = [const { AtomicUsize::new(0) }; D_MAX];
 static D_FABRICATED: AtomicUsize = AtomicUsize::new(0);
 struct D {
@@ -236,11 +236,91 @@ impl Drop for D {
         } else {
             D_DROPS[self.id as usize].fetch_add(1, Ordering::SeqCst);
         }
+        // whoever still looks at this value afterwards sees that it is gone
+        self.magic = 0;
     }
 }
 struct S4 {
     b: AtomicBucket<D>,
     delivered: Log<(u64, usize)>, // (id, drop count at delivery)
+}
+
+/// S6: a clearing read whose callback FAILS (panics, caught by the caller) on its second block, next to a snapshot read
+/// in progress (66 values = two blocks; the reader's callback yields between blocks). Whatever the clear does with the
+/// blocks it had already visited when its callback failed, a read in progress keeps seeing live values: no value it is
+/// handed has been destroyed, none is fabricated, no destructor runs twice.
+static S6_BAD_READS: AtomicUsize = AtomicUsize::new(0);
+fn s6_scenario() -> Scenario<S4> {
+    let n = 8 + 66;
+    let reader: Body<S4> = body(|s: &S4| {
+        s.b.data_with(|xs| {
+            for d in xs {
+                if d.magic != D_MAGIC || (d.id as usize) < D_MAX && D_DROPS[d.id as usize].load(Ordering::SeqCst) != 0 {
+                    S6_BAD_READS.fetch_add(1, Ordering::SeqCst);
+                }
+            }
+            vsched::point("reader_between_blocks");
+            for d in xs {
+                if d.magic != D_MAGIC {
+                    S6_BAD_READS.fetch_add(1, Ordering::SeqCst);
+                }
+            }
+        });
+    });
+    let clearer: Body<S4> = body(|s: &S4| {
+        let mut calls = 0;
+        let _ = std::panic::catch_unwind(std::panic::AssertUnwindSafe(|| {
+            s.b.clear_with(|xs| {
+                calls += 1;
+                for d in xs {
+                    s.delivered.push((d.id, D_DROPS[(d.id as usize).min(D_MAX - 1)].load(Ordering::SeqCst)));
+                }
+                if calls == 2 {
+                    std::panic::resume_unwind(Box::new("the clear callback fails on its second block"));
+                }
+            })
+        }));
+    });
+    Scenario {
+        name: "S6-failing-clear-callback-vs-reader-prefill66".into(),
+        setup: Box::new(move || {
+            for d in D_DROPS.iter() {
+                d.store(0, Ordering::SeqCst);
+            }
+            D_FABRICATED.store(0, Ordering::SeqCst);
+            S6_BAD_READS.store(0, Ordering::SeqCst);
+            let s = S4 { b: AtomicBucket::new(), delivered: Log::new() };
+            for i in 0..66 {
+                s.b.push(D::new(8 + i as u64));
+            }
+            s
+        }),
+        bodies: vec![reader, clearer],
+        check: Box::new(move |s, _| {
+            let bad = S6_BAD_READS.load(Ordering::SeqCst);
+            if bad != 0 {
+                return fail("value-read-after-its-destructor-ran", format!("a snapshot read in progress was handed {} value(s) that had already been destroyed (their block released while the read's guard was pinned)", bad));
+            }
+            for (id, dc) in &s.delivered.get() {
+                if *dc != 0 {
+                    return fail("destructor-before-delivery", format!("value {} was destroyed before it was delivered", id));
+                }
+            }
+            for _ in 0..64 {
+                crossbeam_epoch::pin().flush();
+            }
+            if D_FABRICATED.load(Ordering::SeqCst) != 0 {
+                return fail("destructor-run-on-value-never-pushed", format!("{} destructor run(s) on slots that never held a pushed value", D_FABRICATED.load(Ordering::SeqCst)));
+            }
+            for (i, d) in D_DROPS.iter().enumerate().take(n) {
+                if d.load(Ordering::SeqCst) > 1 {
+                    return fail("destructor-twice", format!("destructor of value {} ran {} times", i, d.load(Ordering::SeqCst)));
+                }
+            }
+            Verdict::Ok(format!("delivered={}", s.delivered.get().len()))
+        }),
+        termination_promised: true,
+    }
 }
 
 fn s4_scenario(prefill: usize) -> Scenario<S4> {
@@ -358,7 +438,7 @@ fn scenario(name: &str) -> Option<Scenario<S>> {
 fn parts(ctx: &Ctx) -> Vec<PartSpec> {
     let mut v = Vec::new();
     if ctx.quick() {
-        for s in ["S1", "S2", "S2b", "S3", "S3b", "S3c", "S4", "S4h", "S5", "S5h", "S5f", "S5g"] {
+        for s in ["S1", "S2", "S2b", "S3", "S3b", "S3c", "S4", "S4h", "S5", "S5h", "S5f", "S5g", "S6"] {
             v.push(PartSpec::new(&format!("{}-pb2", s), json!({"scn": s, "pb": 2})).budget(120.0));
         }
         // E2: C11 memory model (incl. the epoch reclamation's own atomics), 2 threads at bound 1, 3 threads at bound 0
@@ -369,7 +449,7 @@ fn parts(ctx: &Ctx) -> Vec<PartSpec> {
         for (s, pb, b) in [("push_clear", 2, 900.0), ("push_snap", 2, 1500.0), ("handover_clear", 2, 1500.0), ("full_push_clear", 2, 1500.0), ("handover_push_push", 2, 1500.0), ("handover_snap", 1, 900.0), ("push_clear_snap", 1, 1500.0), ("push_clear_clear", 1, 1500.0), ("full_clear_clear", 2, 900.0), ("push_push_clear", 1, 1500.0), ("handover_push_push_clear", 1, 1500.0)] {
             v.push(PartSpec::new(&format!("loom-{}-pb{}", s, pb), json!({"loom": s, "pb": pb})).budget(b));
         }
-        for s in ["S1", "S2", "S2b", "S3", "S3b", "S3c", "S3d", "S4", "S4h", "S5", "S5h", "S5f", "S5g"] {
+        for s in ["S1", "S2", "S2b", "S3", "S3b", "S3c", "S3d", "S4", "S4h", "S5", "S5h", "S5f", "S5g", "S6"] {
             v.push(PartSpec::new(&format!("{}-pb3", s), json!({"scn": s, "pb": 3})).budget(900.0));
         }
         for s in ["S1", "S3", "S2"] {
@@ -391,6 +471,7 @@ fn run(ctx: &Ctx, spec: &PartSpec) -> PartResult {
     match scn.as_str() {
         "S4" => vsched::explore(&s4_scenario(0), &cfg, ctx, &mut res),
         "S4h" => vsched::explore(&s4_scenario(63), &cfg, ctx, &mut res),
+        "S6" => vsched::explore(&s6_scenario(), &cfg, ctx, &mut res),
         other => match scenario(other) {
             Some(s) => vsched::explore(&s, &cfg, ctx, &mut res),
             None => res.error = Some(format!("unknown scenario {}", other)),
